@@ -15,6 +15,7 @@ OBLIGATIONS = [
     "KafVerif.C10.readFrame_total",
     "KafVerif.C10.readFrame_exact",
     "KafVerif.C10.readFrame_writeFrame",
+    "KafVerif.C10.readFrames_stream",
     "KafVerif.C10.parse_depends_only_on_frame",
 ]
 BUILDS = {
@@ -122,6 +123,16 @@ def gen_frame(rng):
     return struct.pack(">i", max(0, len(body) - 1)) + body
 
 
+def gen_stream(rng):
+    """Several frames back to back on one connection: (op, expected payload list or None)."""
+    k = rng.range(1, 5)
+    pays = [rng.bytes(rng.choice([0, 1, 5, 20, 60, 200, 508, 509, 600])) for _ in range(k)]
+    data = b"".join(struct.pack(">i", len(p)) + p for p in pays)
+    tail = rng.choice([b"", b"", b"", b"\x00", b"\x00\x00\x00", struct.pack(">i", 9) + b"abc", struct.pack(">i", -1)])
+    mode = rng.choice([0, 0, 1, 2, rng.range(3, 1 << 30)])
+    return "frames %d %s" % (mode, lib.hexs(data + tail)), pays, tail
+
+
 def mutate(rng, b):
     b = bytearray(b)
     if not b:
@@ -147,6 +158,22 @@ def monitor_line(op, out):
         return "decoder-panic", "%s of client bytes panicked" % {"hdr": "ParseRequestHeader", "skip": "SkipTaggedFields", "frame": "ReadFrame", "rt": "ParseRequest"}.get(f[0], f[0])
     if f[0] == "rt" and out != "rt ok":
         return "roundtrip-mismatch", "request key %s v%s encoded by kmsg's RequestFormatter did not parse back to the same header/body: %s" % (f[1], f[2], out[:120])
+    if f[0] == "frames" and out.startswith("frames"):
+        # independent reading of the stream: length-prefixed payloads until what is left is not a whole frame
+        raw = bytes.fromhex(f[2]) if f[2] != "-" else b""
+        want, pos = [], 0
+        while len(raw) - pos >= 4:
+            n = struct.unpack(">i", raw[pos:pos + 4])[0]
+            if n < 0 or len(raw) - pos - 4 < n:
+                break
+            want.append(raw[pos + 4:pos + 4 + n])
+            pos += 4 + n
+        got = out.split("payloads=")[1].split(" end=")[0]
+        got = [] if got == "" else [bytes.fromhex(x) if x != "-" else b"" for x in got.split("|")]
+        if got != want:
+            return ("pipelined-frames-lost-or-corrupted",
+                    "%d frames written back to back on one connection: ReadFrame returned %d payloads / different bytes "
+                    "(bytes after the first frame were consumed or dropped)" % (len(want), len(got)))
     if f[0] == "frame" and not out.startswith("ok"):
         raw = bytes.fromhex(f[1]) if f[1] != "-" else b""
         if len(raw) >= 4 and 0 <= struct.unpack(">i", raw[:4])[0] <= len(raw) - 4:
@@ -234,6 +261,8 @@ def build_ops(ck, binary):
         ops.append("skip " + lib.hexs(gen_tagged(ck.rng)))
     for _ in range(n // 3):
         ops.append("frame " + lib.hexs(gen_frame(ck.rng)))
+    for _ in range(n // 4):
+        ops.append(gen_stream(ck.rng)[0])
     return ops
 
 
@@ -243,6 +272,8 @@ def nontrivial(op, out):
         return True
     if f[0] == "hdr":
         return out.startswith("ok") or len(f[1]) > 24  # got past the fixed-size fields
+    if f[0] == "frames":
+        return "n=0" not in out
     return out.startswith("ok") or len(f[1]) > 6
 
 
